@@ -298,7 +298,64 @@ def r8(ctx):
     ctx.floor(R, 6)
 
 
+def r10(ctx):
+    R = "C09-R10"
+    ctx.rule(R, "the receive capacity counts every datagram a socket holds: wherever a datagram is taken out of the bounded queue only to "
+                "be parked in a field of Rx (readable() cannot peek an mpsc channel), a slot of the queue is reserved for it in the same "
+                "function on every path (Sender::try_reserve_owned / reserve_owned kept in a field), and taking the parked datagram gives "
+                "the slot back; otherwise a socket waiting in readable() accepts udp_capacity + 1 datagrams")
+    BUF = "turmoil::net::udp::Rx::buffer"
+    n = 0
+    for b in sorted(ctx.w.bodies.values(), key=lambda b: b.id):
+        if b.crate != "turmoil" or "net::udp::Rx" not in b.id:
+            continue
+        parks = []
+        for bb, i, s in b.all_stmts():
+            if place_last_field(s["p"]) != BUF:
+                continue
+            o = {"k": "agg", "r": s["r"]} if s["r"]["k"] == "agg" else origin(b, s["r"]["o"]) if s["r"]["k"] == "use" else {"k": "?"}
+            if o["k"] == "agg" and o["r"].get("variant") == "Some":
+                parks.append((bb, s))
+        for bb, s in parks:
+            n += 1
+            root = b
+            while root.parent and root.parent in ctx.w.bodies:
+                root = ctx.w.bodies[root.parent]
+            res = [x for x, t in b.calls(re.compile(r"mpsc::(bounded::)?Sender::(try_reserve_owned|reserve_owned|try_reserve|reserve)$|Sender<T>::(try_reserve_owned|reserve_owned)$"))]
+            stored = [x for x, i2, s2 in b.all_stmts() if (place_last_field(s2["p"]) or "").startswith("turmoil::net::udp::Rx::") and place_last_field(s2["p"]) != BUF
+                      and any(re.search(r"call:.*(try_reserve_owned|reserve_owned|try_reserve|reserve)$", a) for a in Slicer(ctx.w).atoms(b, s2["r"].get("o", {}) if s2["r"]["k"] == "use" else {}))]
+            ok = bool(res) and bool(stored) and (not always_passes(b, stored, frm=bb) or any(b.dominated_by_block(bb, x) for x in stored))
+            ctx.inst(R, f"{root.id}:parked-datagram-holds-slot", ok, s["s"], "the parked datagram keeps its queue slot occupied" if ok else
+                     f"`{root.id}` moves a datagram out of the bounded receive queue into Rx::buffer without reserving its slot: while a datagram is parked "
+                     "the queue accepts one more, so the socket holds udp_capacity + 1 datagrams")
+    ctx.floor(R, 1)
+
+
+def r11(ctx):
+    R = "C09-R11"
+    ctx.rule(R, "group membership is evaluated where the datagram is received: UdpSocket::send resolves a multicast destination to the member "
+                "list at send time and re-addresses every copy to the member's unicast address, so with a non-zero latency the membership can "
+                "change while the copy is in flight; the receive path (Host::receive_from_network -> Udp::receive_from_network) must then "
+                "consult MulticastGroups again - or the copy must keep the group address - for 'only current members' to hold")
+    hr = ctx.body(R, "turmoil::host::Host::receive_from_network")
+    sd = ctx.body(R, "turmoil::net::udp::UdpSocket::send")
+    if not hr or not sd:
+        return
+    snap = any(True for fb in ctx.w.family(sd.id) for _ in fb.calls(re.compile(r"MulticastGroups::destination_addresses$")))
+    reach = reach_bodies(ctx.w, [hr.id])
+    consults = any(True for bid in reach for _ in ctx.w.bodies[bid].calls(re.compile(r"^turmoil::net::udp::MulticastGroups::"))) or \
+        any("turmoil::world::World::multicast_groups" in place_fields(pl) for bid in reach for bb, i, s in ctx.w.bodies[bid].all_stmts()
+            for pl in [s["p"]] + ([s["r"]["p"]] if isinstance(s["r"].get("p"), dict) else []))
+    ok = consults or not snap
+    ctx.inst(R, "multicast:membership-at-receipt", ok, hr.span, "membership is (re)checked on receipt" if ok else
+             "members are snapshotted at send time (MulticastGroups::destination_addresses in UdpSocket::send) and the receive path never consults "
+             "MulticastGroups: a copy still in flight is delivered to a socket that has left the group - or to a fresh socket on that port that never joined")
+    ctx.floor(R, 1)
+
+
 def run(ctx):
+    r11(ctx)
+    r10(ctx)
     scan_rule(ctx, "C09")
     r8(ctx)
     r7(ctx)
